@@ -16,6 +16,7 @@ RULE = (
     "every image over a 3-4 letter dyadic alphabet on the declared grids (Cartesian 1-2 dim with all periodicity masks, polar, spherical, "
     "cylindrical) x all threshold rules x all affine maps (a,b) x minimal radii; images in which a cell lies within 1e-9*range of the "
     "reference threshold are screened (only possible for 'mean'/'otsu'); non-trivial = non-constant image"
+    "; exact affine maps include 2^-30 and (2^-12, 1024); DropletTracker and EmulsionTimeCourse.from_storage are driven as further entry points on all ordered pairs of a 24-image catalogue x affine maps"
 )
 ASSUMPTIONS = [
     "dyadic values and dyadic affine maps, so a*x+b is exact and '>' has no rounding knife-edge",
